@@ -13,8 +13,8 @@ the repairs committed in /repo: mixed element types are written (5bedc75); eleme
 grouped by element (c3a1079); the importer reads set names written by the exporter (810bb8c) and two-column
 coordinates (6fd00f9); the dimension of a geometry is decided from its own frame, no `_dimension` carried from call
 to call (ba72c38); identifiers that do not fit the 32 bit integers of the format are refused (0e66e4b);
-and with the follow-up repairs tools/fixes/C20-3-*.diff, C20-4-*.diff: `add_variable` validates its arguments before
-it creates anything; element nodal values are written in the order of the connectivity stored by `add_geometry`,
+and with the follow-up repairs, committed as well: 1c1257e (sets accept any iterable of ids again; `add_variable` validates its
+arguments before it creates anything) and 57828f0: element nodal values are written in the order of the connectivity stored by `add_geometry`,
 whatever the row order of the variable's frame is (a frame whose rows are not the (element, node) pairs of whole
 elements of the geometry is refused).
 -/
